@@ -280,6 +280,24 @@ def run_case(case):
     exec_cache = {}
     n_edges = n_exec = 0
     outcomes = set()
+    # Refit(k, ign): the object keeps its own settings, so which abstract kind a second dataset realises is decided UNDER THOSE SETTINGS
+    # (probe fit of a fresh object, statistics against thresholds); datasets: the first data-only realisation of every kind
+    refit_data = {}   # realised kind -> data object
+    refit_skipped = 0
+    if kind != "unfitted" and case.get("refit", True):
+        for k2, vn2 in (("ok", "ok"), ("dq", "too_short_300d"), ("poor", "weather_independent_noise"), ("dq_poor", "gaps_and_noise")):
+            try:
+                _, b2, e2, _ = next(c for c in concrete(family, k2) if c[0] == vn2)
+                d2 = make_baseline(family, b2(), e2)
+                pr = new_model(family, settings)
+                pr.fit(d2, ignore_disqualification=True)
+                poor2, _ = poor_by_statistics(family, pr)
+            except Exception:  # a dataset that cannot be prepared under these settings is simply not offered
+                continue
+            if poor2 is None:
+                continue
+            rk = {(False, False): "ok", (True, False): "dq", (False, True): "poor", (True, True): "dq_poor"}[(bool(d2.disqualification), poor2)]
+            refit_data.setdefault(rk, d2)
     for (src, dst, act, params) in edges:
         sv, dv = states[src], states[dst]
         csrc = core(sv)
@@ -293,6 +311,9 @@ def run_case(case):
                     continue
             elif kind != "unfitted":
                 continue
+        if act == "Refit" and params[0] not in refit_data:
+            refit_skipped += 1   # no dataset realises that kind under this variant's settings (replayed with the other variants)
+            continue
         n_edges += 1
         ek = (csrc, act, tuple(params))
         if ek not in exec_cache:
@@ -305,6 +326,10 @@ def run_case(case):
                 if act == "Fit":
                     res = obj.fit(data_obj, ignore_disqualification=params[1])
                     out = "model" if (res is obj and getattr(obj, "is_fitted", False)) else "not_a_fitted_model"
+                elif act == "Refit":
+                    res = obj.fit(refit_data[params[0]], ignore_disqualification=params[1])
+                    out = "model" if (res is obj and getattr(obj, "is_fitted", False)) else "not_a_fitted_model"
+                    stored_after = False
                 elif act == "Predict":
                     res = obj.predict(pin(params[0], params[1]), ignore_disqualification=params[2])
                     out = "frame" if isinstance(res, pd.DataFrame) and "predicted" in res.columns else "not_a_frame"
@@ -314,6 +339,7 @@ def run_case(case):
                     out = "model"
             except DataSufficiencyError as e:
                 exc, out = e, "DataSufficiencyError"
+                stored_after = csrc[3]
             except DisqualifiedModelError as e:
                 exc, out = e, "DisqualifiedModelError"
             except Exception as e:  # noqa
@@ -327,18 +353,18 @@ def run_case(case):
                                    (want == "SomeException" and out.startswith("Other:")))
         ekey = dict(key0, act=act, want=want, got=out.split(":")[0])
         if not ok_out:
-            clause = {"Fit": "fit_outcome", "Predict": "predict_outcome", "Store": "store_outcome"}[act]
+            clause = {"Fit": "fit_outcome", "Refit": "refit_outcome", "Predict": "predict_outcome", "Store": "store_outcome"}[act]
             viol.append({"clause": clause, "key": ekey,
                          "detail": f"{family}/{vname}: from state fitted={csrc[0]} mdq={sorted(csrc[2])} stored={csrc[3]} the call {label} gave "
                                    f"{out} ({exc_repr}); the model allows {want}"})
         want_a = {"fitted": dv["fitted"], "mdq": dv["mdq"], "stored": dv["stored"]}
-        if a != want_a and not (act == "Fit" and out != "model" and want != "model"):
+        if a != want_a and not (act in ("Fit", "Refit") and out != "model" and want != "model"):
             viol.append({"clause": "state_after_call", "key": dict(key0, act=act),
                          "detail": f"{family}/{vname}: after {label} from fitted={csrc[0]} mdq={sorted(csrc[2])} stored={csrc[3]}: real object "
                                    f"abstracts to fitted={a['fitted']} mdq={sorted(a['mdq'])} stored={a['stored']}, model state is "
                                    f"fitted={want_a['fitted']} mdq={sorted(want_a['mdq'])} stored={want_a['stored']}"})
     return {"behaviour": [family, kind, vname, sorted(outcomes)], "violations": viol,
-            "stats": {"edges_replayed": n_edges, "real_executions": n_exec}}
+            "stats": {"edges_replayed": n_edges, "real_executions": n_exec, "refit_edges_without_dataset_under_these_settings": refit_skipped}}
 
 
 def run(tier, seed):
@@ -352,7 +378,9 @@ def run(tier, seed):
             for c in concrete(f, kind):
                 if tier == "quick" and kind in ("dq",) and c[0] in ("too_long_400d", "june_temperature_8d_missing") and f != "daily":
                     continue
-                cs.append({"family": f, "kind": kind, "variant": c[0], "graph": lite})
+                # quick: refit edges with the first realisation of every kind and with the settings-made poor fits
+                cs.append({"family": f, "kind": kind, "variant": c[0], "graph": lite,
+                           "refit": tier == "thorough" or c[0] == concrete(f, kind)[0][0] or "threshold" in c[0]})
     with poolmod.Pool(workers=min(len(cs), poolmod.n_workers())) as pool:
         ex = explore.explore(pool, "replay of the complete TLC graph", MOD, "run_case", cs, seed=seed, chunk=1)
     # every TLC edge must have been replayed at least once per family
